@@ -336,7 +336,7 @@ func (l *listener) Listen() error {
 			return mangos.ErrTLSNoConfig
 		}
 		tcfg = v.(*tls.Config)
-		if tcfg.Certificates == nil || len(tcfg.Certificates) == 0 {
+		if tcfg.GetCertificate == nil && len(tcfg.Certificates) == 0 {
 			return mangos.ErrTLSNoCert
 		}
 	}
